@@ -194,6 +194,104 @@ let ch_json hex lim obs dets kind =
       propfail "C08" (Printf.sprintf "well-formed JSON (%s) not recognised: limit=%s input=%s (%S)" kind lim hex (string_of_bytes raw))
   end
 
+(* jdepth <hex> <limit> <obs JSON verdict> <desc>: documents nested around the recursion cap *)
+let ch_jdepth hex lim obs desc =
+  let raw = bytes_of_hex hex in
+  let l = n_of_int (int_of_string lim) in
+  let r = parse maxrec tokens (queries_of coq_none) raw in
+  if r.p_oof then mismatch "json-fuel" (Printf.sprintf "model ran out of fuel on %s" desc);
+  let hwm = int_of_nat r.p_hw in
+  if hwm > int_of_nat maxrec + 1 then propfail "C16" (Printf.sprintf "model recursion level %d exceeds cap+1 on %s" hwm desc);
+  let li = int_of_string lim in
+  let len = List.length raw in
+  let ok_tok = N.coq_land r.p_ftok want_json <> N0 in
+  let m = looks_like_obj_or_arr raw && r.p_qsat && ok_tok &&
+          (if li = 0 || len < li then int_of_nat r.p_parsed = len else int_of_nat r.p_inspected = len && len > 0) in
+  ignore l;
+  if m <> (obs = "1") then mismatch "json" (Printf.sprintf "depth case %s limit=%s model=%b obs=%s" desc lim m obs)
+
+(* ---- charset ---- *)
+let charset_repaired = (try Sys.getenv "VERIF_CHARSET_LEGACY" <> "1" with Not_found -> true)
+let model_plain s = from_plain boms text_chars tc_T tc_I charset_repaired s
+let cs_of_code = function
+  | 'u' -> "utf-8" | 'w' -> "windows-1252" | 'i' -> "iso-8859-1" | '-' -> "" | 'B' -> "utf-16be" | 'L' -> "utf-16le"
+  | 'C' -> "utf-32be" | 'M' -> "utf-32le" | _ -> "?"
+let c11_one s obs src =
+  let m = string_of_bytes (model_plain s) in
+  if m <> obs then mismatch "charset" (Printf.sprintf "%s model=%S obs=%S input=%s" src m obs (hex_of_bytes s));
+  let why = c11_judge s (bytes_of_string obs) in
+  if why <> [] then propfail "C11" (Printf.sprintf "%s: input=%s (%S) reported charset=%S (%s)" (string_of_bytes why) (hex_of_bytes s) (string_of_bytes s) obs src)
+let ch_c11 hex obs src = c11_one (bytes_of_hex hex) obs src
+let ch_c11x alhex prehex ks codes =
+  let al = Array.of_list (bytes_of_hex alhex) in
+  let na = Array.length al in
+  let pre = bytes_of_hex prehex in
+  let k = int_of_string ks in
+  let idx = Array.make k 0 in
+  for j = 0 to String.length codes - 1 do
+    let s = pre @ Array.to_list (Array.map (fun i -> al.(i)) idx) in
+    c11_one s (cs_of_code codes.[j]) "FromPlain";
+    let t = ref (k - 1) in
+    let go = ref true in
+    while !go && !t >= 0 do
+      idx.(!t) <- idx.(!t) + 1;
+      if idx.(!t) < na then go := false else begin idx.(!t) <- 0; decr t end
+    done
+  done
+
+(* ---- declared charsets (C12) ---- *)
+let parse_tokens (t : ostr) : token list =
+  if t = "-" then [] else
+  List.map (fun part ->
+    let i = String.index part '(' in
+    let name = bytes_of_hex (let h = String.sub part 0 i in if h = "" then "-" else h) in
+    let inner = String.sub part (i + 1) (String.length part - i - 2) in
+    let attrs = if inner = "" then [] else
+      List.map (fun kv -> match String.split_on_char '=' kv with
+        | [k; v] -> (bytes_of_hex (if k = "" then "-" else k), bytes_of_hex (if v = "" then "-" else v))
+        | _ -> ([], [])) (String.split_on_char ',' inner) in
+    { tk_name = name; tk_attrs = attrs }) (String.split_on_char ';' t)
+
+let c12_expected is_html (l : n list) : n list =
+  let lo = lower_bytes l in
+  if is_html && has_prefix (bytes_of_string "utf-16") lo then bytes_of_string "utf-8" else lo
+
+let spec_has_bom doc = has_bom doc
+
+(* c12h <doc> <tokens> <obs fromHTML> <type> <detect charset> <label> <kind> *)
+let ch_c12h dochex toks obshex typ cshex lhex kind =
+  let doc = bytes_of_hex dochex in
+  let m = html_prescan (parse_tokens toks) in
+  if hex_of_bytes m <> obshex then mismatch "meta" (Printf.sprintf "prescan model=%S obs=%S doc=%S" (string_of_bytes m) (string_of_bytes (bytes_of_hex obshex)) (string_of_bytes doc));
+  let l = bytes_of_hex lhex in
+  let cs = bytes_of_hex cshex in
+  if typ <> "text/html" then propfail "C12" (Printf.sprintf "HTML document with a meta declaration reported as %s: doc=%s (%S)" typ dochex (string_of_bytes doc))
+  else if spec_has_bom doc then begin
+    (* a byte-order mark takes precedence over the meta declaration *)
+    let bc = from_bom boms doc in
+    if cs <> bc then propfail "C12" (Printf.sprintf "byte-order mark must take precedence over the meta declaration: expected %S got %S doc=%s (%S)" (string_of_bytes bc) (string_of_bytes cs) dochex (string_of_bytes doc))
+  end else begin
+    let e = c12_expected true l in
+    if cs <> e then propfail "C12" (Printf.sprintf "declared charset not honoured (%s): label=%S expected %S got %S doc=%s (%S)" kind (string_of_bytes l) (string_of_bytes e) (string_of_bytes cs) dochex (string_of_bytes doc))
+  end
+
+(* c12x <doc> <obs fromXML> <type> <detect charset> <label> <kind> *)
+let ch_c12x dochex obshex typ cshex lhex kind =
+  let doc = bytes_of_hex dochex in
+  let l = bytes_of_hex lhex in
+  let cs = bytes_of_hex cshex in
+  let e = c12_expected false l in
+  ignore obshex;
+  if typ <> "text/xml" then propfail "C12" (Printf.sprintf "XML document with a declaration reported as %s: doc=%s (%S)" typ dochex (string_of_bytes doc))
+  else if cs <> e then propfail "C12" (Printf.sprintf "declared XML encoding not honoured (%s): label=%S expected %S got %S doc=%s (%S)" kind (string_of_bytes l) (string_of_bytes e) (string_of_bytes cs) dochex (string_of_bytes doc))
+
+(* c12f <string> <obs fromMetaElement> <obs xmlEncoding> *)
+let ch_c12f shex mhex xhex =
+  let s = bytes_of_hex shex in
+  let m = from_meta_element s and x = xml_encoding s in
+  if hex_of_bytes m <> mhex then mismatch "meta" (Printf.sprintf "fromMetaElement model=%S obs=%S input=%S" (string_of_bytes m) (string_of_bytes (bytes_of_hex mhex)) (string_of_bytes s));
+  if hex_of_bytes x <> xhex then mismatch "meta" (Printf.sprintf "xmlEncoding model=%S obs=%S input=%S" (string_of_bytes x) (string_of_bytes (bytes_of_hex xhex)) (string_of_bytes s))
+
 (* c10 <hex hdr> <limit> <mime|ext of the result> <kind> *)
 let json_family_heads = ["application/json|.json"; "application/geo+json|.geojson"; "application/json|.har"; "model/gltf+json|.gltf"]
 let ch_c10 hex lim head kind =
@@ -218,7 +316,13 @@ let () =
        | ["obs"; hex; lim; obs; chain; _kind] -> ch_obs hex lim obs chain
        | ["c17"; hex; classes] -> ch_c17 hex classes
        | ["c10"; hex; lim; head; kind] -> ch_c10 hex lim head kind
+       | ["c12h"; d; t; o; ty; cs; l; k] -> ch_c12h d t o ty cs l k
+       | ["c12x"; d; o; ty; cs; l; k] -> ch_c12x d o ty cs l k
+       | ["c12f"; s; m; x] -> ch_c12f s m x
+       | ["c11"; hex; obs; src] -> ch_c11 hex obs src
+       | ["c11x"; al; pre; k; codes] -> ch_c11x al pre k codes
        | ["jexh"; al; pre; k; bits] -> ch_jexh al pre k bits
+       | ["jdepth"; hex; lim; obs; desc] -> ch_jdepth hex lim obs desc
        | ["json"; hex; lim; obs; dets; kind] -> ch_json hex lim obs dets kind
        | "!propfail" :: p :: rest -> propfail p (String.concat " " rest)
        | ["walk"; obs; chain] -> ch_walk obs chain
